@@ -65,6 +65,12 @@ struct C15 : Scenario {
         p.seti("fptype", mode == "ensemble" ? 3 : r.range(0, 3));
         p.seti("deriv", r.range(3, 4));
         p.set("kind", r.pick(std::vector<std::string>{"rf", "drift", "kicky", "kickx"}));
+        // the flow clause also rides the stateful RF maps: sinusoidal RF, and the dynamic (modulated / noisy) RF map, whose
+        // displacement field changes with every application (the particles of one case are successive steps of one map object)
+        if (mode == "flow" && r.chance(0.45)) p.set("kind", r.pick(std::vector<std::string>{"rfsin", "dynrf_lin", "dynrf_lin", "dynrf_sin"}));
+        p.setd("rfamp", r.uniform(5, 40)); p.setd("v0frac", r.uniform(0, 0.3));
+        p.setd("modampl", r.chance(0.7) ? r.uniform(0.005, 0.05) : 0); p.setd("phasespread", r.chance(0.5) ? r.uniform(0.002, 0.01) : 0);
+        p.setd("amplspread", r.chance(0.4) ? r.uniform(0.005, 0.03) : 0); p.setd("modstep", r.uniform(0.05, 0.9));
         if (mode == "flow") { p.setd("slope", r.uniform(-0.3, 0.3)); p.setd("offset0", r.uniform(-2.5, 2.5)); p.seti("nparticles", 30); }
         if (mode == "bounds") {
             p.seti("nsteps", tier == "quick" ? r.range(50, 1500) : r.range(200, 10000));
@@ -83,18 +89,34 @@ struct C15 : Scenario {
 
     // ------------------------------------------------------------------ flow
     void run_flow(const Plan& plan, RunCtx& rc, Outcome& o) const {
-        unsigned n = (unsigned)(40 + plan.geti("n") % 25);   // the blob needs room: 40..64 cells
-        auto it = (SourceMap::InterpolationType)plan.geti("interp");
         std::string kind = plan.get("kind");
+        unsigned n = (unsigned)(40 + plan.geti("n") % 25);   // the blob needs room: 40..64 cells
+        if (starts_with(kind, "dynrf")) n += 32;               // (and a wider margin where the field is only known after apply())
+        auto it = (SourceMap::InterpolationType)plan.geti("interp");
         float sx = (float)plan.getd("shiftx"), sy = (float)plan.getd("shifty");
         api_begin(rc.workdir, plan.getu("entropy"), 0);
         PhaseSpace::resetSize(n, 1);
         auto in = mkps(n, sx, sy), out = mkps(n, sx, sy);
         std::unique_ptr<SourceMap> map;
         double slope = 0;       // |d offset / d row| in cells per cell
-        bool ykick = true;
+        bool ykick = true, dynamic = false;
         if (kind == "rf") { float a = (float)plan.getd("angle"); map.reset(new RFKickMap(in, out, a, 5e8f, it, false, nullptr)); slope = std::tan(a); }
         else if (kind == "drift") { float a = (float)plan.getd("angle"); map.reset(new DriftMap(in, out, {a, 0.0f, 0.0f}, 1.3e9f, it, false, nullptr)); slope = a; ykick = false; }
+        else if (kind == "rfsin" || kind == "dynrf_lin" || kind == "dynrf_sin") {
+            const long np = plan.geti("nparticles", 30);
+            const float frf = 5e8f;
+            // sinusoidal model: kick amplitude of rfamp cells, T_rev-part 0.05
+            const double revpart = 0.05;
+            const double vrf = plan.getd("rfamp") * in->getAxis(1)->delta() * in->getAxis(1)->scale("ElectronVolt") / revpart, v0 = vrf * plan.getd("v0frac");
+            float ps = (float)plan.getd("phasespread"), as = (float)plan.getd("amplspread"), ma = (float)plan.getd("modampl");
+            if (ps == 0 && as == 0 && ma == 0) ma = 0.02f;
+            float a = (float)plan.getd("angle");
+            if (kind == "rfsin") map.reset(new RFKickMap(in, out, revpart, (float)vrf, frf, (float)v0, it, false, nullptr));
+            else if (kind == "dynrf_lin") map.reset(new DynamicRFKickMap(in, out, n, n, a, revpart, frf, ps, as, ma, plan.getd("modstep"), (uint32_t)np + 2, it, false, nullptr));
+            else map.reset(new DynamicRFKickMap(in, out, n, n, revpart, (float)vrf, frf, (float)v0, ps, as, ma, plan.getd("modstep"), (uint32_t)np + 2, it, false, nullptr));
+            slope = kind == "dynrf_lin" ? std::tan(a) * 1.05 : plan.getd("rfamp") * in->getAxis(0)->scale("Meter") / 299792458.0 * frf * 6.2832 * in->getAxis(0)->delta() * 1.05;
+            dynamic = kind != "rfsin";
+        }
         else {
             ykick = kind == "kicky";
             auto* k = new KickMap(in, out, it, false, ykick ? KickMap::Axis::y : KickMap::Axis::x, nullptr);
@@ -115,7 +137,8 @@ struct C15 : Scenario {
             // displacement the particle's row is going to get (for the margin)
             double row = ykick ? px : py;
             double disp = std::fabs(force[(unsigned)std::min<double>(row, n - 1)]);
-            double margin = 5 * sigma + disp + 2 + slope * 5 * sigma;
+            // (a dynamic map's field is only known after apply(): the phase part of its kick is bounded separately)
+            double margin = 5 * sigma + disp + 2 + slope * 5 * sigma + (dynamic ? 8 : 0);
             bool interior = px > margin && px < n - 1 - margin && py > margin && py < n - 1 - margin;
             if (!interior) { o.probe("reach.flow_skipped_near_border"); continue; }
             float* d = in->getData();
@@ -131,6 +154,13 @@ struct C15 : Scenario {
             // all displacement fields used here are linear in the row index, so a symmetric blob moves exactly like its centre;
             // what remains is rounding (measured: < 5e-6 cell for interpolation orders 2-4)
             double tol = 1e-3;    // worst observed on the tree: 4.6e-6 cell
+            if (kind == "rfsin" || kind == "dynrf_sin") {
+                // curved field: the blob's centre lags the particle by ~ f'' sigma^2 / 2, the particle's own linear interpolation by f''/8
+                double c2 = 0;
+                for (unsigned i = 1; i + 1 < n; i++) c2 = std::max(c2, (double)std::fabs(force[i + 1] - 2 * force[i] + force[i - 1]));
+                tol += c2 * (sigma * sigma + 0.5);
+            }
+            if (dynamic && (std::fabs(px - pos.x) > 7.5 || std::fabs(py - pos.y) > 7.5)) { o.probe("reach.flow_skipped_near_border"); continue; }   // kick larger than the extra margin
             maxflowdev = std::max(maxflowdev, std::max(std::fabs(mx - pos.x), std::fabs(my - pos.y)));
             o.checks++; judged++; o.probe("reach.flow_judged");
             if (std::fabs(mx - pos.x) > tol || std::fabs(my - pos.y) > tol)
